@@ -60,11 +60,19 @@ type Ingress struct {
 	Paths       []string
 }
 
+// FNHook, when set, is called by predicate 2 (constant true) before it answers: a filter that takes its time.
+var FNHook func()
+
 // FNs are the opaque predicates behind (fn i); the driver defines the same ones.
 var FNs = []func(metav1.Object) bool{
 	func(o metav1.Object) bool { return o.GetLabels()["l"] == "1" },
 	func(o metav1.Object) bool { return o.GetName() == "a" },
-	func(o metav1.Object) bool { return true },
+	func(o metav1.Object) bool {
+		if h := FNHook; h != nil {
+			h()
+		}
+		return true
+	},
 	func(o metav1.Object) bool { _, ok := o.(*corev1.Pod); return ok },
 }
 
